@@ -315,6 +315,10 @@ def select_cases(cases: list[dict[str, Any]], tier: str, seed: int) -> tuple[lis
                       "c": {"kind": kind, "art": art, "db": False, "lock": lock, "hooks": True, "point": "PreHook",
                             "how": "CtrlC", "n": 0, "where": "pre"}})
             k += 1
+        # ... and while the database is being closed after the run has ended
+        b.append({"id": PREHOOK_BASE + 500 + k, "expect": None,
+                  "c": {"kind": kind, "art": True, "db": True, "lock": True, "hooks": True, "point": "DbClose",
+                        "how": "CtrlC", "n": 0, "where": "pre"}})
     # how the database fails to open: the directory cannot be created / the file is not a database / the file
     # was written by another schema version (the last two fail AFTER the sqlite connection object exists)
     for cs in a + b:
